@@ -23,8 +23,10 @@ claims={
  "C02":("On the signed fixture image under the signature/hash model: verification succeeds for the signer and fails for another key (same issuer and serial) and for every single-byte change of section data (symbolic position), of the embedded digest, of the signer identity, signed attributes and signature.","2 C02"),
  "C04":("Unit-level soundness of PKCS#7 verification over an arbitrary parsed state with up to two signer entries and a reusable honest signature: success implies matching identity, valid signature over the attribute SET and messageDigest = SHA-256(content).","2 C04"),
  "C13":("Crash/exit/allocation/termination obligations decided on every path for: the test image with each offset-steering header field symbolic (Parse, Hash, Bytes, Signatures), a fully symbolic certificate table, fully symbolic small DER through ParsePKCS7/Verify, a real blob with one symbolic byte, and a signer entry without attributes.","2 C13"),
+ "C16":("Third-party style SignedData built by an independent reference encoder in all 32 producer configurations parses, verifies against the signer and not against another certificate, and the signed-attribute bytes reconstructed from the parsed values equal the signed bytes; the shipped sbsign/sbvarsign artefacts parse.","2 C16"),
 }
 partial={
+ "C16":" The producer language is an assumption about OpenSSL/sbsign, stated in the evidence.",
  "C13":" Fully symbolic images are outside; one header field varies at a time.",
  "C02":" Header-byte coverage rests on C01 (digest = specification stream) plus the digest comparison shown here; cross-image transplant is the section-byte case seen from the other image.",
  "C04":" DER-level attribute permutation/duplication is addressed by the fix to verify over original bytes but not separately decided.",
